@@ -282,7 +282,9 @@ func c05Scan(c *Ctx, text string, regexAt map[int]bool, local map[string]int64) 
 			local[fmt.Sprintf("tok.%s", tokName(tok))]++
 			if tok == influxql.EOF {
 				if start != len(f) {
-					viol = func() { r.Violation("EOF-before-end", det(fmt.Sprintf("EOF reported at offset %d of %d", start, len(f)), i)) }
+					viol = func() {
+						r.Violation("EOF-before-end", det(fmt.Sprintf("EOF reported at offset %d of %d", start, len(f)), i))
+					}
 					return
 				}
 				// EOF has no first character, so the property does not fix its
@@ -314,7 +316,9 @@ func c05Scan(c *Ctx, text string, regexAt map[int]bool, local map[string]int64) 
 				if tok == influxql.REGEX {
 					inner := string(cov[1 : len(cov)-1])
 					if cov[0] != '/' || cov[len(cov)-1] != '/' || strings.ReplaceAll(inner, `\/`, `/`) != lit {
-						viol = func() { r.Violation("token-content", det(fmt.Sprintf("REGEX literal %q covers %q", lit, string(cov)), i)) }
+						viol = func() {
+							r.Violation("token-content", det(fmt.Sprintf("REGEX literal %q covers %q", lit, string(cov)), i))
+						}
 						return
 					}
 				}
